@@ -193,7 +193,7 @@ package dkg_proposal_fsm
 //@   loop 2 invariant unchanged("*internal.DumpedMachineStatePayload", "*internal.DKGConfirmation", "*internal.SignatureConfirmation", "map[int]*internal.DKGProposalParticipant", internal.DKGProposalParticipant.DkgCommit, internal.DKGProposalParticipant.DkgDeal, internal.DKGProposalParticipant.DkgResponse, internal.DKGProposalParticipant.DkgMasterKey, internal.DKGProposalParticipant.Username, "[]byte")
 //@   loop 3 invariant forall k int :: k in $visited ==> dkgQ(m.payload)[k].Status == internal.MasterKeyConfirmed
 //@   loop 3 invariant unchanged("*internal.DumpedMachineStatePayload", "*internal.DKGConfirmation", "*internal.SignatureConfirmation", "map[int]*internal.DKGProposalParticipant", internal.DKGProposalParticipant.DkgCommit, internal.DKGProposalParticipant.DkgDeal, internal.DKGProposalParticipant.DkgResponse, internal.DKGProposalParticipant.DkgMasterKey, internal.DKGProposalParticipant.Error, internal.DKGProposalParticipant.Username, "[]byte")
-//@   ensures[C05.mkmismatch,C02.mismatch] !old(dkgExpired(m)) && !old(dkgAny(m.payload, internal.MasterKeyConfirmationError)) && old(exists a int, b int :: (a in dkgQ(m.payload)) && (b in dkgQ(m.payload)) && dkgQ(m.payload)[a].Status == internal.MasterKeyConfirmed && dkgQ(m.payload)[b].Status == internal.MasterKeyConfirmed && !sameKey(mkOf(m, a), mkOf(m, b))) ==> outEvent == eventDKGMasterKeyConfirmationCancelByErrorInternal && (forall k int :: k in dkgQ(m.payload) ==> dkgQ(m.payload)[k].Status == internal.MasterKeyConfirmationError)
+//@   ensures[C05.mkmismatch,C02.mismatch,C08.mismatch.all] !old(dkgExpired(m)) && !old(dkgAny(m.payload, internal.MasterKeyConfirmationError)) && old(exists a int, b int :: (a in dkgQ(m.payload)) && (b in dkgQ(m.payload)) && dkgQ(m.payload)[a].Status == internal.MasterKeyConfirmed && dkgQ(m.payload)[b].Status == internal.MasterKeyConfirmed && !sameKey(mkOf(m, a), mkOf(m, b))) ==> outEvent == eventDKGMasterKeyConfirmationCancelByErrorInternal && (forall k int :: k in dkgQ(m.payload) ==> dkgQ(m.payload)[k].Status == internal.MasterKeyConfirmationError)
 //@   ensures[C05.outs] outEvent == "" || outEvent == eventDKGMasterKeyConfirmationCancelByTimeoutInternal || outEvent == eventDKGMasterKeyConfirmationCancelByErrorInternal || outEvent == eventDKGMasterKeyConfirmedInternal
 //@   ensures[C05.phasekeep] outEvent == "" && old(dkgPhaseOk(m.payload, internal.MasterKeyAwaitConfirmation, internal.MasterKeyConfirmed)) ==> dkgPhaseOk(m.payload, internal.MasterKeyAwaitConfirmation, internal.MasterKeyConfirmed)
 //@   ensures[C05.mkwait.same] outEvent == "" ==> dkgViewsSame(m)
